@@ -5,7 +5,7 @@
 # Used while long runs that read /repo are in flight. (The registered checks always use /repo.)
 set -u
 PATCH="$1"; TIER="$2"; shift 2
-WT=/tmp/wt_iso; VC=/tmp/vcopy
+TAG="${ISO_TAG:-}"; WT=/tmp/wt_iso$TAG; VC=/tmp/vcopy$TAG   # ISO_TAG=<suffix> allows a second instance in parallel
 git -C /repo worktree remove --force "$WT" >/dev/null 2>&1
 git -C /repo worktree add -q --detach "$WT" HEAD || exit 2
 if [ "$PATCH" != none ]; then ( cd "$WT" && git apply "$PATCH" ) || { echo "PATCH-DOES-NOT-APPLY $PATCH"; exit 2; }; fi
